@@ -131,6 +131,28 @@ func RunSum() {
 	checkNumber(r, err, float64(n), "count")
 }
 
+// RunSumSpecials: sum() adds number() of EVERY node, also once the running
+// total is an infinity or NaN: three nodes, each from a menu that includes
+// numerals of 310 digits (which convert to +-Infinity), non-numbers and -0.
+func RunSumSpecials() {
+	huge := strings.Repeat("9", 310)
+	texts := []string{huge, "-" + huge, "x", "1", "-0", "2.5"}
+	ev := []hx.Event{{N: hx.Elem{Name: "r"}}}
+	want := 0.0
+	n := 2 + nd.Choice(2)
+	for k := 0; k < n; k++ {
+		s := texts[nd.Choice(len(texts))]
+		ev = append(ev, hx.Event{N: hx.Elem{Name: "a"}}, hx.Event{N: hx.Text{Val: s}}, hx.Event{End: true})
+		want = want + spec.Number(s)
+	}
+	ev = append(ev, hx.Event{End: true})
+	doc, err := hx.Build(ev)
+	nd.Assert(err == nil, "sum.build")
+	r, err := xsel.Exec(doc, exprs["sum(/r/*)"])
+	nd.Reach("sum-specials")
+	checkNumber(r, err, want, "sum-specials")
+}
+
 // RunRoundLemma: the two formulations of XPath round() in the reference model
 // agree on every double (used by C07's substring oracle).
 func RunRoundLemma() {
